@@ -23,6 +23,9 @@ func RunC15(c *Ctx, r *Report) {
 		return
 	}
 	c.macTotality(r, prefix)
+	// the receiver computes the code over the packet it decoded: what it decoded is a function of the received
+	// octets, not of attributes an earlier packet left in a reused object
+	c.decodeInputOnlyRule(r, prefix+"decode.input-only", c.DecodeScope(r, prefix))
 	// the receiver recomputes the code over a re-serialisation of the decoded packet: whatever the decoder
 	// keeps must be emitted again, token by token and padded to the declared length
 	c.akaRules(r, prefix, "stability")
